@@ -20,7 +20,7 @@
 //!   gtx <id> out=<dlen>.<dtag>,...                       genesis transactions (checked against the real genesis)
 //!   genesis txs=<id,...>                                 => dump
 //!   tx <id> fee=<f> salt=<s> in=<tx:idx,...> out=<dlen>.<dtag>,...
-//!   block <id> <parent> salt=<s> ep=<n>.<i>.<l> cb=<0|1> txs=<..> props=<..> uncles=<..>   => new|known|err dump
+//!   block <id> <parent> salt=<s> ep=<n>.<i>.<l> cb=<0|1> cbid=<tx id|auto> txs=<..> props=<..> uncles=<..>   => new|known|err dump
 //!   truncate <block id>                                   => ok|err dump
 //!   snap <k>                                              => dump of the snapshot published after the k-th state op
 use crate::common::*;
@@ -72,12 +72,18 @@ impl Ids {
             None => (UNKNOWN, format!("?{}", &hex(h.as_slice())[..8])),
         }
     }
-    pub fn add_block(&mut self, id: u64, b: &BlockView) {
+    /// returns the id of the block's cellbase transaction: sibling blocks at one height can carry
+    /// the *same* cellbase transaction (the hash excludes the witness), which then has one id
+    pub fn add_block(&mut self, id: u64, b: &BlockView) -> u64 {
         self.blk.insert(b.hash(), id);
         self.blkv.insert(id, b.clone());
         let cb = b.transactions()[0].clone();
+        if let Some(i) = self.tx.get(&cb.hash()) {
+            return *i;
+        }
         self.tx.insert(cb.hash(), CB_BASE + id);
         self.txv.insert(CB_BASE + id, cb);
+        CB_BASE + id
     }
     pub fn add_tx(&mut self, id: u64, t: &TransactionView) {
         self.tx.insert(t.hash(), id);
@@ -322,6 +328,7 @@ pub struct ABlock {
     pub number: u64,
     pub salt: u64,
     pub cb_out: bool,
+    pub cbid: u64,
     pub txs: Vec<u64>,
     pub props: Vec<u64>,
     pub uncles: Vec<u64>,
@@ -585,7 +592,7 @@ impl<'a> Exec<'a> {
                 assert_eq!(txs.len(), g.transactions().len());
                 self.ids.blk.insert(g.hash(), 0);
                 self.ids.blkv.insert(0, g.clone());
-                self.ablocks.insert(0, ABlock { id: 0, parent: 0, number: 0, salt: 0, cb_out: true, txs: txs[1..].to_vec(), props: vec![], uncles: vec![] });
+                self.ablocks.insert(0, ABlock { id: 0, parent: 0, number: 0, salt: 0, cb_out: true, cbid: 0, txs: txs[1..].to_vec(), props: vec![], uncles: vec![] });
                 self.start_reader();
                 let d = self.observe();
                 self.out.op(line, &d);
@@ -611,9 +618,10 @@ impl<'a> Exec<'a> {
                 let salt: u64 = kv(t[3], "salt").parse().unwrap();
                 let epf = kv(t[4], "ep");
                 let cb: u64 = kv(t[5], "cb").parse().unwrap();
-                let txs = parse_list(kv(t[6], "txs"));
-                let props = parse_list(kv(t[7], "props"));
-                let uncles = parse_list(kv(t[8], "uncles"));
+                let cbid_s = kv(t[6], "cbid");
+                let txs = parse_list(kv(t[7], "txs"));
+                let props = parse_list(kv(t[8], "props"));
+                let uncles = parse_list(kv(t[9], "uncles"));
                 let ph = self.ids.blkv.get(&parent).expect("parent known").hash();
                 let spec = BlockSpec {
                     txs: txs.iter().map(|i| self.ids.txv[i].clone()).collect(),
@@ -626,10 +634,20 @@ impl<'a> Exec<'a> {
                 let e = blk.epoch();
                 assert_eq!(epf, format!("{}.{}.{}", e.number(), e.index(), e.length()), "block line epoch differs from the built block");
                 assert_eq!(cb as usize, blk.transactions()[0].outputs().len(), "block line cb differs from the built block");
-                self.ids.add_block(id, &blk);
+                let cbid = self.ids.add_block(id, &blk);
+                let line_owned = if cbid_s == "auto" { line.replacen("cbid=auto", &format!("cbid={}", cbid), 1) } else { assert_eq!(cbid_s, cbid.to_string(), "block line cbid differs from the built block"); line.to_string() };
+                let line = line_owned.as_str();
                 let number = blk.number();
-                self.ablocks.insert(id, ABlock { id, parent, number, salt, cb_out: cb == 1, txs, props, uncles: uncles.clone() });
+                self.ablocks.insert(id, ABlock { id, parent, number, salt, cb_out: cb == 1, cbid, txs, props, uncles: uncles.clone() });
                 let old_tip = self.node.as_ref().unwrap().tip();
+                let common_before = {
+                    let store = self.node.as_ref().unwrap().store();
+                    let mut h = blk.parent_hash();
+                    while !(store.get_block_hash(store.get_block_header(&h).unwrap().number()).as_ref() == Some(&h)) {
+                        h = store.get_block_header(&h).unwrap().parent_hash();
+                    }
+                    store.get_block_header(&h).unwrap().number()
+                };
                 let r = self.node.as_ref().unwrap().process(&blk);
                 let res = match &r {
                     Ok(true) => "new",
@@ -643,13 +661,7 @@ impl<'a> Exec<'a> {
                 let new_tip = self.node.as_ref().unwrap().tip();
                 if new_tip.hash() == blk.hash() && blk.parent_hash() != old_tip.hash() {
                     // depth of the reorg = number of detached blocks
-                    let mut h = blk.parent_hash();
-                    let store = self.node.as_ref().unwrap().store();
-                    while !(store.get_block_hash(store.get_block_header(&h).unwrap().number()).as_ref() == Some(&h)) {
-                        h = store.get_block_header(&h).unwrap().parent_hash();
-                    }
-                    let common = store.get_block_header(&h).unwrap().number();
-                    let depth = old_tip.number() - common;
+                    let depth = old_tip.number() - common_before;
                     self.reorg_depths.insert(depth);
                     self.out.count("reorg");
                     self.out.count(&format!("reorg_depth_{:02}", depth));
@@ -725,7 +737,7 @@ impl Gen {
             if b == 0 {
                 c.live.insert((0, 0));
             } else if ab.cb_out {
-                c.live.insert((CB_BASE + b, 0));
+                c.live.insert((ab.cbid, 0));
             }
             for t in &ab.txs {
                 let at = &ex.atxs[t];
@@ -852,7 +864,7 @@ impl Gen {
         let id = self.next_blk;
         self.next_blk += 1;
         let cb = if n > wf + 1 { 1 } else { 0 };
-        let line = format!("block {} {} salt={} ep={}.{}.{} cb={} txs={} props={} uncles={}", id, parent, id, n / self.l, n % self.l, self.l, cb, list(&txs), list(&props), list(&uncles));
+        let line = format!("block {} {} salt={} ep={}.{}.{} cb={} cbid=auto txs={} props={} uncles={}", id, parent, id, n / self.l, n % self.l, self.l, cb, list(&txs), list(&props), list(&uncles));
         ex.apply(&line);
         id
     }
